@@ -1164,6 +1164,11 @@ func (h *c16H) onConnack(c *c16Cli) {
 	if prev != nil {
 		if s := h.srv[prev.cid]; s != nil && !s.returned {
 			takeover = true
+		} else if s != nil && s.retSeq > c.connectSeq && prev.connected {
+			// torn down while this connection's handshake was in flight: the
+			// teardown may have run after this connection was registered
+			prev.takenOver = true
+			h.r.Probe("c16.old_teardown_during_new_handshake_seen_at_connack")
 		}
 	}
 	restored := h.model.connack(c.spec.Clean, h.st.lossy)
